@@ -4,7 +4,7 @@
 #define REACH __CPROVER_assert(0, "reach")
 extern int verif_thrown;
 enum { VS_LIT = 1, VS_EXPR, VS_EXPR_TAIL, VS_SYMNAME, VS_NUM, VS_IDREF, VS_NUMCAT, VS_SELECT, VS_OTHER, VS_PREFIX5 };
-enum { F_IS_ONE = 1, F_ONE_AND_PREFIX = 2, F_IS_ERR = 4, F_IS_LPMIN = 8 };
+enum { F_IS_ONE = 1, F_ONE_AND_PREFIX = 2, F_IS_ERR = 4, F_IS_LPMIN = 8, F_ONE_AND_INSIDE = 16 };
 enum { EV_START = 1, EV_END, EV_ATTR, EV_ELEM, EV_STR };
 void w20_reset(void);
 void w20_location_set(int i, int nr, int sym, unsigned nameflags, int committed, int urgent, int inv, unsigned invf, int rate, unsigned ratef);
@@ -56,7 +56,7 @@ static struct loc any_loc(int i, int nr)
 {
     struct loc l;
     __CPROVER_assume(l.sym >= 1 && l.sym <= 4 && (l.com == 0 || l.com == 1) && (l.urg == 0 || l.urg == 1) && l.inv >= 0 && l.inv < 50 && l.rate >= 0 && l.rate < 50);
-    __CPROVER_assume(l.nf < 16 && l.invf < 4 && l.ratef < 4 && !((l.invf & 1) && (l.invf & 2)) && !((l.ratef & 1) && (l.ratef & 2)));
+    __CPROVER_assume(l.nf < 16 && (l.invf == 0 || l.invf == 1 || l.invf == 2 || l.invf == 16) && (l.ratef == 0 || l.ratef == 1 || l.ratef == 2 || l.ratef == 16));
     l.nr = nr;
     w20_location_set(i, nr, l.sym, l.nf, l.com, l.urg, l.inv, l.invf, l.rate, l.ratef);
     return l;
@@ -91,13 +91,14 @@ void h_c20_init(void)
                      "c20.init.exactly-one-init-element-referring-to-the-initial-location");
     REACH;
 }
+#define OKF(f) ((f) == 0 || (f) == 1 || (f) == 2 || (f) == 16)
 struct edge { int src, dst, control, nsel, guard, sync, assign, prob; unsigned gf, sf, af, pf; };
 static struct edge any_edge(int i, int allow_bp)
 {
     struct edge e;
     __CPROVER_assume(e.src >= (allow_bp ? -1 : 0) && e.src <= 1 && e.dst >= (allow_bp ? -1 : 0) && e.dst <= 1 && (e.control == 0 || e.control == 1) && e.nsel >= 0 && e.nsel <= 2);
     __CPROVER_assume(e.guard >= 0 && e.guard < 50 && e.sync >= 0 && e.sync < 50 && e.assign >= 0 && e.assign < 50 && e.prob >= 0 && e.prob < 50);
-    __CPROVER_assume(e.gf < 4 && e.sf < 4 && e.af < 4 && e.pf < 4 && !((e.gf & 1) && (e.gf & 2)) && !((e.sf & 1) && (e.sf & 2)) && !((e.af & 1) && (e.af & 2)) && !((e.pf & 1) && (e.pf & 2)));
+    __CPROVER_assume(OKF(e.gf) && OKF(e.sf) && OKF(e.af) && OKF(e.pf));
     w20_edge_set(i, e.src, e.dst, e.control, e.nsel, e.guard, e.gf, e.sync, e.sf, e.assign, e.af, e.prob, e.pf);
     return e;
 }
